@@ -300,6 +300,13 @@ def check_verify(case):
             cls.append("nt:valid-s-leading-zero")
         if pk[0] == 0:
             cls.append("nt:valid-pk-leading-zero")
+    if case.get("prime") and base is not None and changed:
+        # history: the valid triple this case was derived from is verified first in the same process, so a verdict
+        # remembered from an earlier call (keyed on part of the input) would be exposed
+        cls.append("nt:after-verifying-valid-base")
+        g0 = attempt(lib.verify, bx(base["pk"]), bx(base["msg"]), bx(base["sig"]))
+        if ref.verdict(bx(base["pk"]), bx(base["msg"]), bx(base["sig"]))[0]:
+            f.expect(_accepted(g0), "verify/rejects-valid/base-triple", f"{g0!r}")
     got = attempt(lib.verify, pk, msg, sig)
     acc = _accepted(got)
     if want:
@@ -366,7 +373,7 @@ VERIFY_KINDS = [
     "other-key", "other-msg", "byte-edit",
     "pk-drop-zero", "pk-drop-zero", "pk-pad", "pk-pad", "pk-trunc",
     "sig-drop-s-zero", "sig-drop-s-zero", "sig-drop-r-zero", "sig-insert-zero", "sig-insert-zero", "sig-pad", "sig-trunc",
-    "both-lengths",
+    "both-lengths", "resplit", "resplit",
 ]
 
 
@@ -489,6 +496,24 @@ def verify_cases(draw):
         how = draw(st.sampled_from(["drop-last", "drop-first", "r-only", "empty", "drop-byte-32"]))
         mut = "sig-trunc:" + how
         sig = {"drop-last": sig[:-1], "drop-first": sig[1:], "r-only": sig[:32], "empty": b"", "drop-byte-32": sig[:32] + sig[33:]}[how]
+    elif kind == "resplit":
+        # the same byte string pk || msg || sig cut at other places: lengths change together with the message
+        if len(msg) < 2:
+            msg = msg + b"\x07\x09"
+            d, pk, sig = _build(d, msg, k0)
+            base = {"pk": hx(pk), "msg": hx(msg), "sig": hx(sig)}
+        how = draw(st.sampled_from(["pk+m[0]", "pk+m[:2]", "pk[:31]", "m[-1]+sig", "m+sig[0]"]))
+        mut = "resplit:" + how
+        if how == "pk+m[0]":
+            pk, msg = pk + msg[:1], msg[1:]
+        elif how == "pk+m[:2]":
+            pk, msg = pk + msg[:2], msg[2:]
+        elif how == "pk[:31]":
+            pk, msg = pk[:31], pk[31:] + msg
+        elif how == "m[-1]+sig":
+            msg, sig = msg[:-1], msg[-1:] + sig
+        else:
+            msg, sig = msg + sig[:1], sig[1:]
     elif kind == "both-lengths":
         how = draw(st.sampled_from(["both-dropped", "both-padded", "pk-dropped-sig-padded"]))
         mut = "both-lengths:" + how
@@ -498,7 +523,7 @@ def verify_cases(draw):
             pk, sig = b"\x00" + pk, sig[:32] + b"\x00" + sig[32:]
         else:
             pk, sig = pk[1:], sig[:32] + b"\x00" + sig[32:]
-    return {"kind": kind, "mut": mut, "pk": hx(pk), "msg": hx(msg), "sig": hx(sig), "base": base}
+    return {"kind": kind, "mut": mut, "pk": hx(pk), "msg": hx(msg), "sig": hx(sig), "base": base, "prime": draw(st.booleans()) or kind == "resplit"}
 
 
 # ---------------------------------------------------------------- deterministic boundary enumeration
